@@ -114,65 +114,4 @@ theorem k_matrixClear_eq (m : WMat) :
     rw [setC ws i 0 _ (by omega) (by omega), setWord_eq_updWord]
     cases updWord ws i _ <;> rfl
 
-when_kernel Gzx.Gen.K16b.matrixXor in
-/-- `BitMatrix.Xor(mask)` = `WMat.xor`: dimension check (error, unchanged), then word by word
-    `bits[y*rowSize+x] ^= mask.bits[y*mask.rowSize+x]`, index panics at the same iteration.
-    (`b` and `mask` are different objects: the translation threads the two word slices separately.) -/
-theorem k_matrixXor_eq (m mask : WMat) :
-    Gen.K16b.matrixXor m.width m.height m.rowSize (words m.words) mask.width mask.height mask.rowSize (words mask.words) =
-      expEW m.words (WMat.xor m mask) := by
-  simp only [Gen.K16b.matrixXor, WMat.xor]
-  by_cases h1 : m.width ≠ mask.width ∨ m.height ≠ mask.height ∨ m.rowSize ≠ mask.rowSize
-  · resolve_ifs; rfl
-  resolve_ifs
-  generalize hF : (fun (ws : List Nat) (y : Nat) => (List.range m.rowSize).foldlM (fun ws x => do
-          let o ← wordAt mask.words (y * mask.rowSize + x)
-          updWord ws (y * m.rowSize + x) (fun w => w ^^^ o)) ws) = F
-  rw [List.range_eq_range', loop_up_fold' words F 0 m.height m.words rfl (by rw [tripUp_one]; omega) (by omega), ofRes_thenR]
-  · cases hf : (List.range' 0 m.height).foldlM F m.words with
-    | ok ws => rfl
-    | error e =>
-      refine (expEW_error _ ?_).symm
-      subst hF
-      refine foldlM_error NotArg _ (fun _ y _ h => foldlM_error NotArg _ (fun _ x e h => ?_) _ _ _ h) _ _ _ hf
-      simp only [bind, Except.bind] at h
-      cases hw : wordAt mask.words (y * mask.rowSize + x) with
-      | error e' => rw [hw] at h; injection h with h; subst h; exact wordAt_error hw
-      | ok o => rw [hw] at h; exact updWord_error h
-  · subst hF
-    intro y _ _ ws
-    simp only [Gen.K16b.matrixXor_body1]
-    rw [List.range_eq_range', loop_up_fold' words (fun ws x => do
-          let o ← wordAt mask.words (y * mask.rowSize + x)
-          updWord ws (y * m.rowSize + x) (fun w => w ^^^ o)) 0 m.rowSize ws rfl (by rw [tripUp_one]; omega) (by omega), ofRes_thenC_next]
-    intro x _ _ ws
-    simp only [Gen.K16b.matrixXor_body2]
-    rw [idxC mask.words (y * mask.rowSize + x) _ (by omega)]
-    simp only [bind, Except.bind]
-    cases wordAt mask.words (y * mask.rowSize + x) with
-    | error e => rfl
-    | ok o =>
-      simp only []
-      rw [updC ws (y * m.rowSize + x) (fun w => w ^^^ o) _ (by omega) (by omega) (fun w => ixor_natCast w o)]
-      cases updWord ws (y * m.rowSize + x) _ <;> rfl
-
-when_kernel Gzx.Gen.K16b.matrixSetRow in
-/-- `BitMatrix.SetRow(y, row)` = `WMat.setRow`: `copy(bits[y*rowSize : y*rowSize+rowSize], row.bits)` with the slice-bounds panic -/
-theorem k_matrixSetRow_eq (m : WMat) (y : Nat) (row : WArr) :
-    Gen.K16b.matrixSetRow m.rowSize (words m.words) y (words row.words) = expW (WMat.setRow m y row) := by
-  have hmul : (y : Int) * (m.rowSize : Int) = ((y * m.rowSize : Nat) : Int) := by simp
-  simp only [Gen.K16b.matrixSetRow, WMat.setRow, expW, copySeg, words_length, hmul]
-  by_cases h : y * m.rowSize + m.rowSize > m.words.length
-  · simp (disch := omega) only [if_pos, if_neg]; rfl
-  · simp (disch := omega) only [if_pos, if_neg]
-    have e2 : (((y * m.rowSize : Nat) : Int) + (m.rowSize : Int)).toNat = y * m.rowSize + m.rowSize := by omega
-    simp only [Int.toNat_natCast, e2, tryR_ok, Except.map]
-    congr 1
-    rw [show y * m.rowSize + m.rowSize - y * m.rowSize = m.rowSize by omega]
-    simp only [words, ← List.map_take, ← List.map_drop]
-    rw [show List.map Int.ofNat ((m.words.drop (y * m.rowSize)).take m.rowSize) =
-          words ((m.words.drop (y * m.rowSize)).take m.rowSize) from rfl,
-        show List.map Int.ofNat row.words = words row.words from rfl, copyL_words]
-    simp [words]
-
 end Gzx.Obligations.K16b
